@@ -524,6 +524,8 @@ pub fn name_strategy_for(cfg: TreeCfg) -> BoxedStrategy<String> {
             2 => name_strategy(),
         ]
         .boxed()
+    } else if cfg.max_len >= 8192 {
+        name_strategy_with_long()
     } else {
         name_strategy()
     }
@@ -534,6 +536,16 @@ pub fn name_strategy() -> BoxedStrategy<String> {
         6 => prop::sample::select(NAMES).prop_map(|s| s.to_string()),
         2 => "[a-z0-9 .!#+~_-]{1,6}".prop_map(|s| if s == "." || s == ".." { format!("_{s}") } else { s }),
         1 => "[a-cé日]{1,3}",
+    ]
+    .boxed()
+}
+
+/// Like `name_strategy`, rarely a very long name (the longest a Linux filesystem takes
+/// is 255 bytes).
+pub fn name_strategy_with_long() -> BoxedStrategy<String> {
+    prop_oneof![
+        60 => name_strategy(),
+        1 => (prop::sample::select(vec!["x", "é", "a.", "日"]), 40usize..80).prop_map(|(u, n)| u.repeat(n).chars().take(250 / u.len().max(1)).collect::<String>()),
     ]
     .boxed()
 }
@@ -669,6 +681,8 @@ pub enum LenSpec {
     AroundCap(i64),
     Blocks(i64, i64),
     Raw(u32),
+    /// Rare: far larger than everything else (tens to hundreds of blocks per file).
+    Big(u32),
 }
 
 impl LenSpec {
@@ -687,18 +701,21 @@ impl LenSpec {
                 if v > max { clamp(block + d) } else { clamp(v) }
             }
             LenSpec::Raw(n) => n.min(max_len),
+            // only trees generated with the full configuration (max_len >= 8192) get big files
+            LenSpec::Big(n) => if max_len >= 8192 { n } else { n.min(max_len) },
         }
     }
 }
 
 pub fn len_strategy() -> BoxedStrategy<LenSpec> {
     prop_oneof![
-        1 => Just(LenSpec::Zero),
-        1 => Just(LenSpec::One),
-        3 => (2u32..64).prop_map(LenSpec::Small),
-        2 => (-1i64..=1).prop_map(LenSpec::AroundCap),
-        4 => (1i64..=4, -1i64..=1).prop_map(|(k, d)| LenSpec::Blocks(k, d)),
-        2 => (0u32..=5000).prop_map(LenSpec::Raw),
+        10 => Just(LenSpec::Zero),
+        10 => Just(LenSpec::One),
+        30 => (2u32..64).prop_map(LenSpec::Small),
+        20 => (-1i64..=1).prop_map(LenSpec::AroundCap),
+        40 => (1i64..=4, -1i64..=1).prop_map(|(k, d)| LenSpec::Blocks(k, d)),
+        20 => (0u32..=5000).prop_map(LenSpec::Raw),
+        1 => prop_oneof![20_000u32..70_000, Just(65_536u32), Just(65_535u32), 70_000u32..300_000].prop_map(LenSpec::Big),
     ]
     .boxed()
 }
